@@ -131,7 +131,7 @@ pub open spec fn is_diff(ri: int, rs: int, ai: int, a_s: int, bi: int, bs: int) 
 /// scale of a product: a.s + b.s, or an operand's own scale (one/zero shortcuts), possibly lowered by
 /// normalized() (at most the number of digits, < 2^60 by the size assumption)
 pub open spec fn mul_scale_ok(rs: int, a_s: int, bs: int) -> bool {
-    imin(a_s + bs, imin(a_s, bs)) - 0x1000_0000_0000_0000 <= rs <= imax(a_s + bs, imax(a_s, bs))
+    imin(0, imin(a_s + bs, imin(a_s, bs))) - 0x1000_0000_0000_0000 <= rs <= imax(0, imax(a_s + bs, imax(a_s, bs)))
 }
 
 /// a value is zero iff its unscaled integer is
@@ -146,10 +146,82 @@ pub proof fn lemma_same_zero(i: int, s: int)
 }
 
 
+
+/// a decimal equal to one is 10^s / 10^s with s >= 0
+pub proof fn lemma_one_val(ai: int, a_s: int)
+    requires same_val(ai, a_s, 1, 0)
+    ensures a_s >= 0, ai == pow10(a_s)
+{
+    if a_s < 0 {
+        let k = -a_s;
+        lemma_pow10_strict_mono(0, k);
+        assert(val_at(1, 0, 0) == 1);
+        assert(ai * pow10(k) != 1) by (nonlinear_arith) requires pow10(k) >= 10;
+    } else {
+        assert(val_at(ai, a_s, a_s) == ai);
+        assert(val_at(1, 0, a_s) == 1 * pow10(a_s));
+    }
+}
+
+pub proof fn lemma_prod_exact(ai: int, a_s: int, bi: int, bs: int)
+    ensures is_prod(ai * bi, a_s + bs, ai, a_s, bi, bs)
+{}
+
+pub proof fn lemma_prod_same_result(r2i: int, r2s: int, ri: int, rs: int, ai: int, a_s: int, bi: int, bs: int)
+    requires is_prod(ri, rs, ai, a_s, bi, bs), same_val(r2i, r2s, ri, rs)
+    ensures is_prod(r2i, r2s, ai, a_s, bi, bs)
+{
+    let m = imax(imax(r2s, rs), a_s + bs);
+    lemma_same_at(r2i, r2s, ri, rs, m);
+    lemma_same_at(ri, rs, ai * bi, a_s + bs, m);
+    lemma_same_at(r2i, r2s, ai * bi, a_s + bs, m);
+}
+
+pub proof fn lemma_prod_one_left(ai: int, a_s: int, bi: int, bs: int)
+    requires same_val(ai, a_s, 1, 0)
+    ensures is_prod(bi, bs, ai, a_s, bi, bs), a_s >= 0
+{
+    lemma_one_val(ai, a_s);
+    let m = a_s + bs;
+    assert(val_at(bi, bs, m) == bi * pow10(a_s));
+    b_val_at_self(ai * bi, m);
+    assert(bi * pow10(a_s) == pow10(a_s) * bi) by (nonlinear_arith);
+}
+
+/// every shape a multiplication result takes in the crate: exact product, an operand (or anything equal
+/// to it, e.g. its normalized form) when the other operand equals one, zero when an operand is zero
+pub broadcast proof fn b_mul_cases(ri: int, rs: int, ai: int, a_s: int, bi: int, bs: int)
+    ensures (   ((ri == ai * bi || ri == bi * ai) && rs == a_s + bs)
+             || (same_val(ai, a_s, 1, 0) && same_val(ri, rs, bi, bs))
+             || (same_val(bi, bs, 1, 0) && same_val(ri, rs, ai, a_s))
+             || ((ai == 0 || bi == 0) && ri == 0)
+            ) ==> #[trigger] is_prod(ri, rs, ai, a_s, bi, bs)
+{
+    if (ri == ai * bi || ri == bi * ai) && rs == a_s + bs { assert(ai * bi == bi * ai) by (nonlinear_arith); lemma_prod_exact(ai, a_s, bi, bs); assert(is_prod(ri, rs, ai, a_s, bi, bs)); }
+    else if same_val(ai, a_s, 1, 0) && same_val(ri, rs, bi, bs) {
+        lemma_prod_one_left(ai, a_s, bi, bs);
+        lemma_prod_same_result(ri, rs, bi, bs, ai, a_s, bi, bs);
+    } else if same_val(bi, bs, 1, 0) && same_val(ri, rs, ai, a_s) {
+        lemma_prod_one_left(bi, bs, ai, a_s);
+        assert(bi * ai == ai * bi) by (nonlinear_arith);
+        assert(is_prod(ai, a_s, ai, a_s, bi, bs));
+        lemma_prod_same_result(ri, rs, ai, a_s, ai, a_s, bi, bs);
+    } else if (ai == 0 || bi == 0) && ri == 0 {
+        assert(ai * bi == 0) by (nonlinear_arith) requires ai == 0 || bi == 0;
+        let m = imax(rs, a_s + bs);
+        b_val_at_zero(rs, m); b_val_at_zero(a_s + bs, m);
+        assert(is_prod(ri, rs, ai, a_s, bi, bs));
+    }
+}
+/// a decimal equal to one has a non-negative scale (used for the scale bound of products)
+pub broadcast proof fn b_one_scale(ai: int, a_s: int)
+    ensures #[trigger] same_val(ai, a_s, 1, 0) ==> a_s >= 0
+{ if same_val(ai, a_s, 1, 0) { lemma_one_val(ai, a_s); } }
+
 pub broadcast proof fn b_val_at_self(i: int, s: int) ensures #[trigger] val_at(i, s, s) == i {}
 pub broadcast proof fn b_val_at_zero(s: int, m: int) ensures #[trigger] val_at(0, s, m) == 0 {}
 pub broadcast proof fn b_val_at_neg(i: int, s: int, m: int) ensures #[trigger] val_at(-i, s, m) == -val_at(i, s, m)
 { assert((-i) * pow10(m - s) == -(i * pow10(m - s))) by (nonlinear_arith); }
-pub broadcast group val_algebra_core { b_val_at_self, b_val_at_zero, b_val_at_neg }
+pub broadcast group val_algebra_core { b_val_at_self, b_val_at_zero, b_val_at_neg, b_mul_cases, b_one_scale }
 } // mod vs
 } // verus!
